@@ -28,7 +28,7 @@ import time
 PROPERTY = "C20"
 
 KINDS = ("int", "str", "int-id", "list-id", "obj-id")
-CALLS = ("all", "nonempty", "per-edge")
+CALLS = ("all", "nonempty", "per-edge", "scratch-set", "shared-set")
 
 KEY_F9 = "sccs:node-without-add_neighbors:KeyError"
 
@@ -121,6 +121,7 @@ def _build(case):
     for a, b in unknown:
         out[a].append(b)
     called = set()
+    scratch, shared = set(), {}
     mode = case.get("call", "all")
     for i in order:
         nbs = out[i]
@@ -131,6 +132,29 @@ def _build(case):
             if nbs:
                 g.add_neighbors(objs[i], iter([objs[j] for j in nbs]))
                 called.add(i)
+        elif mode == "scratch-set":
+            # the caller re-uses ONE set object for the neighbours of every node
+            if kind not in ("list-id", "obj-id"):     # (unhashable node objects: those kinds keep plain lists)
+                scratch.clear()
+                scratch.update(objs[j] for j in nbs)
+                g.add_neighbors(objs[i], scratch)
+            else:
+                g.add_neighbors(objs[i], [objs[j] for j in nbs])
+            called.add(i)
+        elif mode == "shared-set":
+            # nodes with equal neighbour lists are given the very same set object; the edges are then added once more
+            # one by one (an in-place update of a stored set must not show through another node)
+            if kind not in ("list-id", "obj-id"):
+                key = tuple(nbs[:-1])
+                sobj = shared.get(key)
+                if sobj is None:
+                    sobj = shared[key] = set(objs[j] for j in nbs[:-1])
+                g.add_neighbors(objs[i], sobj)
+                for j in nbs[-1:]:
+                    g.add_neighbors(objs[i], {objs[j]})
+            else:
+                g.add_neighbors(objs[i], [objs[j] for j in nbs])
+            called.add(i)
         elif mode == "per-edge":
             for j in nbs:
                 g.add_neighbors(objs[i], [objs[j]])
